@@ -87,8 +87,9 @@ func (w *gsWorld) build(v *gsView) *tmconsensus.VersionedRoundView {
 	out := &tmconsensus.VersionedRoundView{Version: v.Version}
 	out.Height, out.Round = v.H, v.R
 	for _, id := range v.PHs {
+		hash, prop := gsSplitPH(id)
 		out.ProposedHeaders = append(out.ProposedHeaders, tmconsensus.ProposedHeader{
-			Header: tmconsensus.Header{Height: v.H, Hash: []byte(id)}, Round: v.R, ProposerPubKey: w.pubs[0], Signature: []byte("sig-" + id)})
+			Header: tmconsensus.Header{Height: v.H, Hash: []byte(hash)}, Round: v.R, ProposerPubKey: w.pubs[prop%len(w.pubs)], Signature: []byte("sig-" + id)})
 	}
 	for kind := 0; kind < 2; kind++ {
 		m := map[string]gcrypto.CommonMessageSignatureProof{}
@@ -118,6 +119,16 @@ func (w *gsWorld) build(v *gsView) *tmconsensus.VersionedRoundView {
 		}
 	}
 	return out
+}
+
+// gsSplitPH: a proposed header id is "hash" or "hash@p" (the same block proposed by validator p as
+// well: same hash, other proposer key and signature - a different proposed header).
+func gsSplitPH(id string) (hash string, proposer int) {
+	if i := strings.IndexByte(id, '@'); i >= 0 {
+		fmt.Sscanf(id[i+1:], "%d", &proposer)
+		return id[:i], proposer
+	}
+	return id, 0
 }
 
 func (v *gsView) facts(into map[string]bool) {
@@ -161,7 +172,15 @@ func runGossip(s *vsimcore.Sim, p vsimcore.Params) vsimcore.RunInfo {
 	sent := map[string]bool{}    // every fact offered to the broadcaster so far
 	allowed := map[string]bool{} // facts that may be broadcast but are not owed
 	var sample []string
-	hashesOf := func(v *gsView) []string { return append([]string{""}, v.PHs...) }
+	hashesOf := func(v *gsView) []string {
+		out := []string{""}
+		for _, id := range v.PHs {
+			if h, _ := gsSplitPH(id); !containsString(out[1:], h) {
+				out = append(out, h)
+			}
+		}
+		return out
+	}
 
 	s.Bubble(func() {
 		ctx, cancel := context.WithCancel(context.Background())
@@ -197,7 +216,7 @@ func runGossip(s *vsimcore.Sim, p vsimcore.Params) vsimcore.RunInfo {
 					return
 				case ph := <-bc.ph:
 					s.ParkID("bc", "recv", "ph")
-					f := fmt.Sprintf("ph/%d/%d/%s", ph.Header.Height, ph.Round, ph.Header.Hash)
+					f := fmt.Sprintf("ph/%d/%d/%s", ph.Header.Height, ph.Round, strings.TrimPrefix(string(ph.Signature), "sig-"))
 					if !handed[f] && !allowed[f] {
 						s.Violate("C17/invented/proposed-header", "broadcast %s that was in no view handed over", f)
 					}
@@ -223,6 +242,16 @@ func runGossip(s *vsimcore.Sim, p vsimcore.Params) vsimcore.RunInfo {
 			case 0:
 				if len(v.PHs) >= 3 {
 					return false
+				}
+				if len(v.PHs) > 0 && s.Pct("same-block-other-proposer", 25) {
+					// a second validator proposes the same block: same hash, its own key and signature
+					base, _ := gsSplitPH(v.PHs[s.Choose("which", len(v.PHs))])
+					id := fmt.Sprintf("%s@%d", base, 1+s.Choose("proposer", 3))
+					if containsString(v.PHs, id) {
+						return false
+					}
+					v.PHs = append(v.PHs, id)
+					break
 				}
 				w.nextPH++
 				v.PHs = append(v.PHs, fmt.Sprintf("blk%d", w.nextPH))
@@ -383,4 +412,13 @@ func runGossip(s *vsimcore.Sim, p vsimcore.Params) vsimcore.RunInfo {
 	info.Sample = map[string]any{"harness": "gossip", "validators": n, "equivocation": equivocation, "updates": sample, "facts_handed_over": len(handed)}
 	_ = bitset.New
 	return info
+}
+
+func containsString(l []string, x string) bool {
+	for _, y := range l {
+		if y == x {
+			return true
+		}
+	}
+	return false
 }
